@@ -57,15 +57,12 @@ def dictGet {κ ν : Type} [BEq κ] : List (κ × ν) → κ → Option ν
 def dictOfList {κ ν : Type} [BEq κ] (l : List (κ × ν)) : List (κ × ν) :=
   l.foldl (fun d kv => dictSet d kv.1 kv.2) []
 
-/-- the lines of a Fortran list write: `p` values per line -/
-def chunk {α : Type} (p : Nat) (xs : List α) : List (List α) :=
-  if h : p = 0 ∨ xs = [] then [] else xs.take p :: chunk p (xs.drop p)
-termination_by xs.length
-decreasing_by
-  have h1 : p ≠ 0 := fun e => h (Or.inl e)
-  have h2 : xs ≠ [] := fun e => h (Or.inr e)
-  have := List.length_pos_iff.mpr h2
-  simp only [List.length_drop]; omega
+/-- the lines of a Fortran list write: `p` values per line (`fuel` bounds the number of lines) -/
+def chunkF {α : Type} (p : Nat) : Nat → List α → List (List α)
+  | 0, _ => []
+  | fuel + 1, xs => if p = 0 ∨ xs.isEmpty then [] else xs.take p :: chunkF p fuel (xs.drop p)
+
+def chunk {α : Type} (p : Nat) (xs : List α) : List (List α) := chunkF p xs.length xs
 
 /-- row-major table from a function -/
 def tabulate {α : Type} (n m : Nat) (f : Nat → Nat → α) : List (List α) :=
@@ -377,7 +374,7 @@ structure Block11 (α : Type) where
   ne : List α
   te : List α
   rates : List (List α)    -- rates[i_ne][i_te]
-  deriving BEq, Repr
+  deriving BEq, Repr, DecidableEq
 
 def tokensOf (lex : Lex11 ℓ α ν) : List ℓ → Option (List α)
   | [] => some []
@@ -443,6 +440,16 @@ def loop11 (lex : Lex11 ℓ α ν) (h : Hdr11 ν) (vec : Option (List α)) :
     else
       loop11 lex h vec rest { st with acc := st.acc.map (· ++ [l]) }
 
+/-- the two loops of parse_adf11 over `lines[startsearch:]`: density-then-temperature vector up to the first `dash`
+line, then the block loop from that line -/
+def body11 (lex : Lex11 ℓ α ν) (h : Hdr11 ν) (ls : List ℓ) : Except Err (List (Nat × Block11 α)) :=
+  match splitAtDash lex ls with
+  | some (pre, suf) =>
+    match tokensOf lex pre with
+    | none => .error .value
+    | some v => loop11 lex h (some v) suf { acc := none, ion := 0, rates := [] }
+  | none => loop11 lex h none ls { acc := none, ion := 0, rates := [] }
+
 /-- parse_adf11 (the `Element` type check of the argument is the caller's) -/
 def parse11 [BEq ν] (lex : Lex11 ℓ α ν) (elemZ : Nat) (elemName : ν) (lines : List ℓ) :
     Except Err (List (Nat × Block11 α)) := do
@@ -452,12 +459,7 @@ def parse11 [BEq ν] (lex : Lex11 ℓ α ν) (elemZ : Nat) (elemName : ν) (line
   else
     let l3 ← opt .index lines[3]?
     let start := if lex.digit0 l3 then 2 else 4
-    match splitAtDash lex (lines.drop start) with
-    | some (pre, suf) =>
-      match tokensOf lex pre with
-      | none => .error .value
-      | some v => loop11 lex h (some v) suf { acc := none, ion := 0, rates := [] }
-    | none => loop11 lex h none (lines.drop start) { acc := none, ion := 0, rates := [] }
+    body11 lex h (lines.drop start)
 
 /-- install.py `_notation_adf11_adas2cherab`: which ADF11 classes get the −1 charge offset -/
 inductive Class11 | scd | acd | ccd | plt | prb | prc | pls deriving DecidableEq, Repr
